@@ -10,7 +10,7 @@ use mpd_protocol::response::Frame;
 
 use super::c14;
 use super::c16;
-use super::typed::{self, frame_of, gen_ms, gen_name, gen_u64_edge, kv, ms_str, TIMESTAMPS, VALUE_EDGES};
+use super::typed::{self, frame_of, gen_ms, gen_name, gen_u64_edge, kv, long_edges, ms_str, TIMESTAMPS, VALUE_EDGES};
 use crate::util::acc::Acc;
 use crate::util::json::J;
 use crate::util::panics;
@@ -287,6 +287,15 @@ const FOREIGN_KEYS: &[&str] = &[
     "Artist", "Title", "album", "ALBUM", "Date", "Track", "Disc", "track", "Disc", "Track", "x-custom", "Mood", "replay_gain_mode", "changed", "binary", "OK", "a", "Z", "_", "-",
 ];
 
+fn pick_edge(r: &mut Rng) -> String {
+    if r.chance(1, 10) {
+        let l = long_edges();
+        l[r.below(l.len())].clone()
+    } else {
+        r.pick(VALUE_EDGES).to_string()
+    }
+}
+
 fn mutate(r: &mut Rng, f: &mut Vec<(String, String)>) -> u64 {
     let n = r.below(4);
     for _ in 0..n {
@@ -317,13 +326,13 @@ fn mutate(r: &mut Rng, f: &mut Vec<(String, String)>) -> u64 {
             }
             4 | 5 if !f.is_empty() => {
                 let p = r.below(f.len());
-                f[p].1 = r.pick(VALUE_EDGES).to_string();
+                f[p].1 = pick_edge(r);
             }
             6 if !f.is_empty() && r.chance(1, 2) => {
                 // an edge value on a field that is actually parsed (timestamps, numbers, ranges, tags read by accessors)
                 const PARSED: &[&str] = &["Last-Modified", "Track", "Disc", "duration", "Time", "Range", "Prio", "Pos", "Id", "playtime", "songs", "size", "elapsed", "xfade", "volume"];
                 let k = *r.pick(PARSED);
-                let v = r.pick(VALUE_EDGES).to_string();
+                let v = pick_edge(r);
                 match f.iter_mut().find(|(kk, _)| kk == k) {
                     Some(e) => e.1 = v,
                     None => {
@@ -334,7 +343,7 @@ fn mutate(r: &mut Rng, f: &mut Vec<(String, String)>) -> u64 {
             }
             _ => {
                 let p = r.below(f.len() + 1);
-                f.insert(p, kv(*r.pick(FOREIGN_KEYS), *r.pick(VALUE_EDGES)));
+                f.insert(p, kv(*r.pick(FOREIGN_KEYS), pick_edge(r)));
             }
         }
     }
@@ -454,7 +463,8 @@ impl Property for C12 {
                 acc.inc("edge_grid_replies");
             }
             for p in (i % 24) as usize..fields.len().min((i % 24) as usize + 1) {
-                for (edge_no, edge) in VALUE_EDGES.iter().enumerate() {
+                let edges: Vec<String> = VALUE_EDGES.iter().map(|s| s.to_string()).chain(long_edges()).collect();
+            for (edge_no, edge) in edges.iter().enumerate() {
                     let mut f = fields.clone();
                     if f[p].0 == "binary" {
                         continue;
@@ -599,7 +609,7 @@ impl Property for C12 {
     fn meta(&self, _cfg: &Cfg, _acc: &Acc) -> Meta {
         Meta {
             level: "exploration",
-            rule: "directed grid: in a well-formed reply of each of 21 kinds every field in turn gets every value of the edge set (now ~115 entries incl. ranges whose end precedes their start and sticker values repeating the requested name without `=`), once as is and once with every line of one other key (rotating; Time+duration together) taken out; random part: frames are produced by the real parser from 21 kinds of well-formed replies (status, stats, count, grouped count, list, grouped list, listplaylists, sticker get/list/find, channels, readmessages, tagtypes, update, replay gain, addid, database and queue listings, album art with binary, empty, idle) with 0-3 mutations (drop/duplicate/reorder fields, drop every line of one key, foreign keys, values from a 70-entry edge set: 2^64, 1e309, NaN, inf, negative, ranges, '=', RFC 3339 garbage, 300-digit numbers), binary toggled; EVERY one of the 66 predefined command/constructor families (plus seven of them again with request parameters at the top of their domain: ranges and windows up to usize::MAX, inverted ranges, offsets of usize::MAX) converts every frame under catch_unwind inside child processes and the result is walked (Debug, Clone, ==, every iterator and accessor of List/Song/Timestamp/sticker types, error Display/source chain); typed lists: tuples of every arity 1-8 and Vec lengths 0-5 against frame counts 0..=n+2; default and chrono build; non-trivial = (command, frame) pair where the frame is not the command's own unmutated reply; distinct by (command, frame fields)".into(),
+            rule: "directed grid: in a well-formed reply of each of 21 kinds every field in turn gets every value of the edge set (now ~115 entries incl. ranges whose end precedes their start and sticker values repeating the requested name without `=`, and 12 long values of 2-, 3- and 4-byte characters offset so that every usual cut-off length falls inside a character), once as is and once with every line of one other key (rotating; Time+duration together) taken out; random part: frames are produced by the real parser from 21 kinds of well-formed replies (status, stats, count, grouped count, list, grouped list, listplaylists, sticker get/list/find, channels, readmessages, tagtypes, update, replay gain, addid, database and queue listings, album art with binary, empty, idle) with 0-3 mutations (drop/duplicate/reorder fields, drop every line of one key, foreign keys, values from a 70-entry edge set: 2^64, 1e309, NaN, inf, negative, ranges, '=', RFC 3339 garbage, 300-digit numbers), binary toggled; EVERY one of the 66 predefined command/constructor families (plus seven of them again with request parameters at the top of their domain: ranges and windows up to usize::MAX, inverted ranges, offsets of usize::MAX) converts every frame under catch_unwind inside child processes and the result is walked (Debug, Clone, ==, every iterator and accessor of List/Song/Timestamp/sticker types, error Display/source chain); typed lists: tuples of every arity 1-8 and Vec lengths 0-5 against frame counts 0..=n+2; default and chrono build; non-trivial = (command, frame) pair where the frame is not the command's own unmutated reply; distinct by (command, frame fields)".into(),
             nontrivial_set: "nontrivial",
             assumptions: vec![
                 "frames can only be made by the real parser, so field names outside its alphabet [A-Za-z_-] cannot reach the typed layer today; such replies are counted as refused by the protocol layer".into(),
